@@ -115,6 +115,7 @@ def gen_pool(rng, s):
     for it in pool:
         if rng.random() < 0.35:
             it2 = c15.Item(it.text.encode("utf-8"), it.op_name, it.variables, it.wseed, it.faults, it.use_root, it.root_t, it.kind + "-bytes")
+            it2.deny = getattr(it, "deny", False)
             extra.append(it2)
     pool.extend(extra)
     rng.shuffle(pool)
@@ -125,12 +126,19 @@ def gen_pool(rng, s):
         if it.kind in ("exec", "exec-bytes") and any(isinstance(v, bool) for v in (it.variables or {}).values()) and rng.random() < 0.6:
             pool.append(c15.Item(it.text, it.op_name, {k: (not v if isinstance(v, bool) else v) for k, v in it.variables.items()},
                                  it.wseed, it.faults, it.use_root, it.root_t, it.kind))
-    return pool[:16]
+    # the same text once rejected by the schema directive and once not (a rejection must not stick to the cached document)
+    for it in list(pool):
+        if "vtpass" in s.directives and rng.random() < 0.2:
+            tw = c15.Item(it.text, it.op_name, it.variables, it.wseed, it.faults, it.use_root, it.root_t, it.kind + "+denied"
+                          if not getattr(it, "deny", False) else it.kind.replace("+denied", ""))
+            tw.deny = not getattr(it, "deny", False)
+            pool.append(tw)
+    return pool[:20]
 
 
 async def run_case(ctx, rng, index):
     st = ctx.stats
-    s = smodel.gen_schema(rng, smodel.GenOpts(n_objects=(2, 4), fields=(2, 4), p_mutation=0.3, p_schema_pass=0.15))
+    s = smodel.gen_schema(rng, smodel.GenOpts(n_objects=(2, 4), fields=(2, 4), p_mutation=0.3, p_schema_pass=0.3))
     sdl = smodel.print_sdl(s)
     bundles = []
     try:
